@@ -515,10 +515,10 @@ func caseCoq(h *History, execs []*Exec) string {
 }
 
 func runCFL(o *hx.Opts, rnd *hx.Rand, res *hx.Result) {
-	n := o.Count(150, 2000)
+	n := o.Count(120, 2000)
 	var file *hx.CoqFile
 	nfile := 0
-	const shard = 40
+	const shard = 30
 	flush := func() {
 		if file != nil {
 			file.Add("].\nDefinition M := Eval vm_compute in mismatches cases.\nPrint M.")
